@@ -252,27 +252,361 @@ Section FLh.
           split; [apply Hall; exact Hc0|]. rewrite (Hlk x0 Hn0). apply Ha. exact Hc0.
   Qed.
 
+  (* ---------- new ---------- *)
+  Lemma coclauses_find : forall cur cls st cls' st',
+    coclauses_with (fun b => wc (codata_of p) cur false b) cls st = Ok (cls', st') ->
+    forall tag,
+    match ffind_clause cls tag with
+    | None => cfind_clause cls' (new_id tag) = None
+    | Some (FClause pl x names ctx body) =>
+        exists ty0 a sta sta' body' stb,
+          cfind_clause cls' (new_id tag) =
+            Some (CClause CPrd (new_id x) (compile_ctx ctx ++ [mkcb (new_id a) CCns (compile_ty ty0)]) body') /\
+          fterm_type body = Some ty0 /\ fresh_covar sta = Ok (a, sta') /\
+          wc (codata_of p) cur false body (CXVar CCns (new_id a) (compile_ty ty0)) sta' = Ok (body', stb) /\
+          grows st sta /\ grows stb st' /\
+          (forall bb, In bb (fvs body') -> ~ In bb (compile_ctx ctx ++ [mkcb (new_id a) CCns (compile_ty ty0)]) -> In bb (fvc cls')) /\
+          In (FClause pl x names ctx body) cls /\ x = tag
+    end.
+  Proof.
+    intros cur. induction cls as [|c r IH]; intros st cls' st' H tag.
+    - simpl in H. apply mret_inv in H. destruct H; subst. reflexivity.
+    - destruct c as [pl x names ctx body]. apply coclauses_with_cons_inv in H.
+      destruct H as [c' [st1 [rest [Hc [Hrest El]]]]]. subst cls'.
+      apply compile_coclause_inv in Hc. destruct Hc as [ty0 [a [sta' [body' [Ety [Hfr [Hbody Ec]]]]]]]. subst c'.
+      assert (Hg0 : grows st sta') by (eapply mgrows_fresh_covar; exact Hfr).
+      assert (Hg1 : grows sta' st1) by (eapply wc_grows; exact Hbody).
+      assert (Hg2 : grows st1 st').
+      { revert Hrest. apply mgrows_coclauses_with. apply Forall_forall. intros c0 _ k0.
+        apply (proj1 (wc_cmp_grows (codata_of p) cur false (clause_body c0))). }
+      unfold ffind_clause, cfind_clause. simpl. rewrite cid_eqb_new_id.
+      destruct (String.eqb x tag) eqn:E.
+      + exists ty0, a, st, sta', body', st1. split; [reflexivity|]. split; [exact Ety|]. split; [exact Hfr|].
+        split; [exact Hbody|]. split; [apply grows_refl|]. split; [exact Hg2|]. split; [|split; [left; reflexivity | apply String.eqb_eq; exact E]].
+        intros bb Hb Hn. apply fvc_cons_body; assumption.
+      + specialize (IH _ _ _ Hrest tag). unfold ffind_clause, cfind_clause in IH.
+        destruct (find (fun c => String.eqb (fcl_xtor c) tag) r) as [[pl0 x0 names0 ctx0 body0]|].
+        * destruct IH as [ty1 [a1 [sta1 [sta1' [b' [stb [E1 [E2 [E3 [E4 [E5 [E6 [E7 [E8 E9]]]]]]]]]]]]]].
+          exists ty1, a1, sta1, sta1', b', stb.
+          split; [exact E1|]. split; [exact E2|]. split; [exact E3|]. split; [exact E4|].
+          split; [eapply grows_trans; [eapply grows_trans; [exact Hg0 | exact Hg1] | exact E5]|]. split; [exact E6|].
+          split; [|split; [right; exact E8 | exact E9]].
+          intros bb Hb Hn. apply fvc_cons_tail. apply E7; assumption.
+        * exact IH.
+  Qed.
+
+  Definition clauses_frag (cls : list fclause) : bool :=
+    forallb (fun c => match c with FClause _ _ names ctx body =>
+                list_eqb String.eqb names (fvars ctx) && ctx_data p ctx && frag p body end) cls.
+  Definition coclauses_kd (cls : list fclause) : bool :=
+    forallb (fun c => match c with FClause _ x _ _ body => kd p body && Bool.eqb (tkind p body) (dkind p x) end) cls.
+
+  Lemma new_core : forall N cls, Forall (fun c => flw p cp N (clause_body c)) cls ->
+    forall n, (n <= N)%nat -> forall G cur st cls' st' e ce,
+    coclauses_with (fun b => wc (codata_of p) cur false b) cls st = Ok (cls', st') ->
+    clauses_frag cls = true -> coclauses_kd cls = true ->
+    forallb (fun c => match c with FClause _ _ _ ctx body => ws (compile_ctx ctx ++ G) body end) cls = true ->
+    forallb (fun c => match c with FClause _ _ _ _ body => nocap body end) cls = true ->
+    lifted_ok cp st' -> Gused G st -> incl (flat_map cl_bnd cls) (st_used_vars st) ->
+    erel p cp n G (Sof (fvc cls')) e ce ->
+    Co p cp n (FvNew cls e) (PCocase cls' ce).
+  Proof.
+    intros N cls Hcls n Hn G cur st cls' st' e ce Hco Hfc Hkc Hwc Hncc Hl HG Hbn He.
+    apply Co_intro. intros j Hj x args args' k kv Hargs Hdf Hk.
+    pose proof (coclauses_find cur cls st cls' st' Hco x) as Hfind.
+    destruct (ffind_clause cls x) as [[pl x0 names ctx body]|] eqn:Efc;
+      [|eapply sim_stuck; simpl; unfold fselect; rewrite Efc; reflexivity].
+    destruct Hfind as [ty0 [a [sta [sta' [body' [stb [Ecf [Ety [Hfr [Hwb [Hga [Hgb [Hfvc [Hin Ex]]]]]]]]]]]]]]. subst x0.
+    destruct (fbind (fvars ctx) args e) as [e1|] eqn:Ebind;
+      [|eapply sim_stuck; simpl; unfold fselect; rewrite Efc; simpl; rewrite Ebind; reflexivity].
+    eapply sim_fstep; [simpl; unfold fselect; rewrite Efc; simpl; rewrite Ebind; reflexivity|].
+    unfold clauses_frag, coclauses_kd in *. rewrite forallb_forall in Hfc, Hwc, Hncc, Hkc.
+    specialize (Hfc _ Hin). specialize (Hwc _ Hin). specialize (Hncc _ Hin). specialize (Hkc _ Hin).
+    simpl in Hfc, Hwc, Hncc, Hkc.
+    apply andb_prop in Hfc. destruct Hfc as [Hfc Hfb]. apply andb_prop in Hfc. destruct Hfc as [_ Hprd].
+    apply andb_prop in Hkc. destruct Hkc as [Hkb Hkx]. apply Bool.eqb_prop in Hkx.
+    destruct (kinds_of_fields p cp Hcod ctx args e e1 Hdf Hprd Ebind) as [Hk1 Hk2].
+    destruct (fresh_in_vars_inv _ _ _ _ Hfr) as [Hfresh [Hused _]].
+    assert (Hgfr : grows sta sta') by (eapply mgrows_fresh_covar; exact Hfr).
+    assert (Hgall : grows st sta') by (eapply grows_trans; [exact Hga | exact Hgfr]).
+    set (ab := mkcb (new_id a) CCns (compile_ty ty0)) in *.
+    assert (Hctx_bnd : forall y, In y (fvars ctx) -> In y (st_used_vars st)).
+    { intros y Hy. apply Hbn. apply in_flat_map. exists (FClause pl x names ctx body). split; [exact Hin | simpl; apply in_or_app; left; exact Hy]. }
+    assert (Hbody_bnd : forall y, In y (bnd body) -> In y (st_used_vars st)).
+    { intros y Hy. apply Hbn. apply in_flat_map. exists (FClause pl x names ctx body). split; [exact Hin | simpl; apply in_or_app; right; exact Hy]. }
+    assert (Hcv : forall x0, In x0 (cvars (compile_ctx ctx)) -> exists y, x0 = new_id y /\ In y (fvars ctx)).
+    { intros x0 Hx0. unfold cvars, compile_ctx in Hx0. rewrite map_map in Hx0. apply in_map_iff in Hx0.
+      destruct Hx0 as [b0 [E Hb0]]. exists (fbvar b0). split; [symmetry; exact E | unfold fvars; apply in_map; exact Hb0]. }
+    assert (Ha_ctx : ~ In (new_id a) (cvars (compile_ctx ctx))).
+    { intros Hc0. destruct (Hcv _ Hc0) as [y [Ey Hy]]. apply new_id_inj in Ey. subst y.
+      apply Hfresh. eapply grows_vars_incl; [exact Hga|]. apply Hctx_bnd. exact Hy. }
+    assert (Hout : forall x0, Sof (fvs body') x0 -> ~ In x0 (cvars (compile_ctx ctx)) -> x0 <> new_id a -> In x0 (cnames (fvc cls'))).
+    { intros x0 Hx0 Hn0 Hna. unfold Sof in Hx0. apply in_cnames_inv in Hx0. destruct Hx0 as [bb [Hbb E]]. subst x0.
+      apply in_cnames. apply Hfvc; [exact Hbb|]. intros Hc. apply in_app_or in Hc. destruct Hc as [Hc|[Hc|[]]].
+      - apply Hn0. unfold cvars. apply in_map. exact Hc.
+      - apply Hna. subst bb. reflexivity. }
+    destruct (erel_binds p cp j G ctx (Sof (fvs body'))
+                (fun x0 => Sof (fvs body') x0 /\ ~ In x0 (cvars (compile_ctx ctx))) args args' e ((new_id a, BK kv) :: ce) e1)
+      as [ce1 [Hcb [Hr Hlk]]].
+    { exact Hargs. }
+    { exact Hk2. }
+    { exact Hk1. }
+    { exact Ebind. }
+    { eapply erel_gen with (S := Sof (fvc cls')).
+      - eapply erel_weaken; [exact He | | lia]. intros x0 Hx0. exact Hx0.
+      - intros bb Hbb E. destruct (HG bb Hbb) as [y [Ey Hy]]. rewrite Ey in E. apply new_id_inj in E. subst y.
+        apply Hfresh. eapply grows_vars_incl; [exact Hga | exact Hy].
+      - intros x0 [Hx0 Hn0] Hna. apply Hout; assumption. }
+    { intros x0 Hx0 Hn0. split; assumption. }
+    simpl. unfold select. rewrite Ecf. cbn [cl_ctx cl_body].
+    unfold cvars. rewrite map_app. simpl map. fold (cvars (compile_ctx ctx)).
+    rewrite (cbind_snoc_gen _ _ _ _ _ _ Hcb).
+    rewrite Forall_forall in Hcls. specialize (Hcls _ Hin). simpl in Hcls.
+    apply (Hcls j ltac:(lia) (compile_ctx ctx ++ G) cur (CXVar CCns (new_id a) (compile_ty ty0)) sta' body' stb e1 ce1 k Hwb Hfb Hkb Hwc Hncc).
+    - eapply lifted_ok_grows; [exact Hl | exact Hgb].
+    - intros bb Hbb. apply in_app_or in Hbb. destruct Hbb as [Hbb|Hbb].
+      + destruct (Hcv (cbvar bb) (in_map cbvar _ _ Hbb)) as [y [Ey Hy]]. exists y. split; [exact Ey|].
+        eapply grows_vars_incl; [exact Hgall|]. apply Hctx_bnd. exact Hy.
+      + eapply Gused_grows; [exact HG | exact Hgall | exact Hbb].
+    - intros y Hy. eapply grows_vars_incl; [exact Hgall|]. apply Hbody_bnd. exact Hy.
+    - intros x0 Hx0. simpl in Hx0. destruct Hx0 as [Hx0|[]]. subst x0. exists a. split; [reflexivity|]. rewrite Hused. left. reflexivity.
+    - intros y Hy Hiny. simpl in Hiny. destruct Hiny as [Hiny|[]]. apply new_id_inj in Hiny. subst y.
+      apply Hfresh. eapply grows_vars_incl; [exact Hga|]. apply Hbody_bnd. exact Hy.
+    - exact I.
+    - exact Hr.
+    - apply CK_covar with (kv := kv).
+      + rewrite (Hlk _ Ha_ctx). rewrite clookup_cons, cid_eqb_refl. reflexivity.
+      + rewrite Hkx. exact Hk.
+  Qed.
+
+  Lemma fl_new : forall N cls ty, Forall (fun c => flw p cp N (clause_body c)) cls ->
+    flw p cp N (FNew cls ty) /\ flc p cp N (FNew cls ty) /\ flt p cp N (FNew cls ty).
+  Proof.
+    intros N cls ty Hcls.
+    assert (Hcore : forall n, (n <= N)%nat -> forall G cur ty' st c st' e ce,
+              cmp (codata_of p) cur false (FNew cls ty) ty' st = Ok (c, st') ->
+              frag p (FNew cls ty) = true -> kd p (FNew cls ty) = true -> ws G (FNew cls ty) = true -> nocap (FNew cls ty) = true ->
+              lifted_ok cp st' -> Gused G st -> incl (bnd (FNew cls ty)) (st_used_vars st) ->
+              erel p cp n G (Sof (fvt c)) e ce ->
+              exists cls' cty, c = CXCase CPrd cls' cty /\ Co p cp n (FvNew cls e) (PCocase cls' ce)).
+    { intros n Hn G cur ty' st c st' e ce Hc Hf Hkd Hws Hnc Hl HG Hbn He.
+      rewrite cmp_unfold in Hc. apply cmp_new_inv in Hc. destruct Hc as [cls' [ty0 [Hco [Ety Ec]]]]. subst c.
+      simpl in Hf, Hkd, Hws, Hnc. apply andb_prop in Hkd. destruct Hkd as [_ Hkc].
+      exists cls', (compile_ty ty0). split; [reflexivity|].
+      eapply (new_core N cls Hcls n Hn G cur st cls' st' e ce); eauto. }
+    split; [|split].
+    - intros n Hn G cur cont st s st' e ce k Hwc Hf Hkd Hws Hnc Hl HG Hbn Hni H8 Hsh He HCK.
+      rewrite wc_unfold in Hwc. apply wc_new_inv in Hwc. destruct Hwc as [cls0 [ty0 [Hco0 [Ety0 Es]]]]. subst s ty.
+      destruct (Hcore n Hn G cur CI64 st (CXCase CPrd cls0 (compile_ty ty0)) st' e ce) as [cls' [cty [Ec HCo]]]; auto.
+      { rewrite cmp_unfold. unfold cmp_new, mbind. rewrite Hco0. reflexivity. }
+      { eapply erel_weaken; [exact He | | apply Nat.le_refl]. apply Sof_incl. intros bb Hx. apply fvs_cut. left. exact Hx. }
+      injection Ec as Ec1 Ec2. subst cls0 cty.
+      assert (HKS : KS p cp n (tkind p (FNew cls (Some ty0))) k cont ce).
+      { eapply CK_KS; [exact HCK|]. intros bb Hbb. apply Sof_in. apply fvs_cut. right. exact Hbb. }
+      destruct (KS_cut p cp n _ k cont ce (CXCase CPrd cls' (compile_ty ty0)) (compile_ty ty0) Hsh HKS I) as [kv [Hr Hk]].
+      destruct n as [|n1]; [apply sim_zero|].
+      eapply sim_fstep; [reflexivity|].
+      apply sim_cstep. eapply sim_rreach; [|exact Hr]. simpl.
+      simpl in Hkd. apply andb_prop in Hkd. destruct Hkd as [Hkty _].
+      eapply Kk_use; [exact Hk | lia | | ].
+      + unfold tkind. simpl. rewrite Hkty. exact I.
+      + simpl. eapply Co_mono; [exact HCo | lia].
+    - intros n Hn G cur ty' st c st' e ce k m Hc Hf Hkd Hk0 Hws Hnc Hl HG Hbn Hty He HK.
+      simpl in Hkd. apply andb_prop in Hkd. destruct Hkd as [Hkty _]. unfold tkind in Hk0. simpl in Hk0. congruence.
+    - intros n Hn G cur ty' st c st' e ce Hc Hf Hkd Hk1 Hws Hnc Hl HG Hbn Hty He.
+      destruct (Hcore n Hn G cur ty' st c st' e ce Hc Hf Hkd Hws Hnc Hl HG Hbn He) as [cls' [cty [Ec HCo]]]. subst c.
+      exists (PCocase cls' ce). split; [|split; [|split; [|split]]].
+      + intros m. reflexivity.
+      + intros v s0 ty1. reflexivity.
+      + intros cd tag vals. reflexivity.
+      + apply Co_intro. intros j Hj x args args' k kv Hargs Hdf Hk.
+        eapply sim_fstep; [reflexivity|].
+        destruct j as [|j1]; [apply sim_zero|].
+        eapply sim_fstep; [reflexivity|].
+        destruct j1 as [|j2]; [apply sim_zero|].
+        apply (Co_use p cp n _ _ HCo j2 ltac:(lia)).
+        * eapply brels_mono; [exact Hargs | lia].
+        * exact Hdf.
+        * eapply Kk_mono; [exact Hk | lia].
+      + intros y ty0 chi E. discriminate E.
+  Qed.
+
+  (* ---------- destructor calls (scrutinee a variable or a `new`) ---------- *)
+  Lemma wc_atomic_cut : forall cur t cont st s st', scrut_atomic t = true ->
+    wc (codata_of p) cur false t cont st = Ok (s, st') ->
+    exists c ty0, fterm_type t = Some ty0 /\ (forall ty, cmp (codata_of p) cur false t ty st = Ok (c, st')) /\
+                  s = CCut c (compile_ty ty0) cont.
+  Proof.
+    intros cur t cont st s st' Ha H. destruct t; simpl in Ha; try discriminate; rewrite wc_unfold in H.
+    - apply wc_var_inv in H. destruct H as [ty0 [Ety [Es Est]]]. subst.
+      exists (CXVar CPrd (new_id v) (compile_ty ty0)), ty0. split; [reflexivity|]. split; [|reflexivity].
+      intros ty1. rewrite cmp_unfold. reflexivity.
+    - unfold wc_new in H. minv H. apply mlift_inv in E. destruct E as [E ->]. apply expect_ty_inv in E.
+      minv H. apply mret_inv in H. destruct H; subst.
+      exists x0, x. split; [reflexivity|]. split; [|reflexivity]. intros ty1. rewrite cmp_unfold. exact E0.
+  Qed.
+
+  Lemma fl_dtor : forall N scrut x targs args ty,
+    flt p cp N scrut -> Forall (flc p cp N) args -> Forall (flt p cp N) args ->
+    flw p cp N (FDtor scrut x targs args ty).
+  Proof.
+    intros N scrut x targs args ty HTs HA HT.
+    intros n Hn G cur cont st s st' e ce k Hwc Hf Hkd Hws Hnc Hl HG Hbn Hni H8 Hsh He HCK.
+    rewrite wc_unfold in Hwc. apply wc_dtor_inv in Hwc.
+    destruct Hwc as [args' [st1 [sty0 [Hargs [Esty Hwscrut]]]]].
+    simpl in Hf, Hkd, Hws, Hnc.
+    apply andb_prop in Hf. destruct Hf as [Hf Hat]. apply andb_prop in Hf. destruct Hf as [Hfs Hfa].
+    apply andb_prop in Hws. destruct Hws as [Hws Hwa].
+    apply andb_prop in Hnc. destruct Hnc as [Hnn Hnca]. apply andb_prop in Hnn. destruct Hnn as [_ Hns].
+    apply andb_prop in Hkd. destruct Hkd as [Hkd Hkx]. apply andb_prop in Hkd. destruct Hkd as [Hkd Hka].
+    apply andb_prop in Hkd. destruct Hkd as [Hks Hkscrut]. apply Bool.eqb_prop in Hkx.
+    assert (Hkind : tkind p (FDtor scrut x targs args ty) = dkind p x) by (unfold tkind; simpl; exact Hkx).
+    rewrite Hkind in *.
+    destruct (wc_atomic_cut cur scrut _ st1 s st' Hat Hwscrut) as [c [ty0 [Ety [Hcmp Es]]]].
+    rewrite Esty in Ety. injection Ety as Ety. subst ty0 s.
+    set (dcont := CXtor CCns (new_id x) (args' ++ [CConsumer cont]) (compile_ty sty0)) in *.
+    assert (Hg1 : grows st st1).
+    { revert Hargs. apply mgrows_subst_with. apply Forall_forall. intros a0 _ ty1.
+      apply (proj2 (wc_cmp_grows (codata_of p) cur false a0)). }
+    assert (Hcd : is_codata cp (compile_ty sty0) = true).
+    { rewrite (is_codata_compile p cp Hcod). unfold tkind in Hkscrut. rewrite Esty in Hkscrut. exact Hkscrut. }
+    destruct (HTs n Hn G cur (compile_ty sty0) st1 c st' e ce (Hcmp _) Hfs Hks Hkscrut Hws Hns Hl) as [pv [_ [_ [Hcutd [HCo _]]]]].
+    { eapply Gused_grows; eauto. }
+    { eapply incl_grows; [|exact Hg1]. intros z Hz. apply Hbn. simpl. apply in_or_app. left. exact Hz. }
+    { exact Hcd. }
+    { eapply erel_weaken; [exact He | | apply Nat.le_refl]. apply Sof_incl. intros bb Hx. apply fvs_cut. left. exact Hx. }
+    assert (HKS : KS p cp n (dkind p x) k cont ce).
+    { eapply CK_KS; [exact HCK|]. intros bb Hbb. apply Sof_in. apply fvs_cut. right.
+      apply fvt_xtor. apply fva_app. right. apply fva_cons. left. exact Hbb. }
+    destruct (darg_props args Hfa) as [Hfa' Hpo].
+    assert (Hstep : cstep cp (Run (CCut c (compile_ty sty0) dcont) ce) =
+                    start_args cp (args' ++ [CConsumer cont]) ce
+                      (FinXtorK (new_id x) (MCutP (is_codata cp (compile_ty sty0)) c ce))).
+    { destruct scrut; simpl in Hat; try discriminate.
+      - specialize (Hcmp CI64). rewrite cmp_unfold in Hcmp. apply cmp_var_inv in Hcmp. destruct Hcmp as [t0 [_ [Ec _]]]. subst c. reflexivity.
+      - specialize (Hcmp CI64). rewrite cmp_unfold in Hcmp. apply cmp_new_inv in Hcmp. destruct Hcmp as [cl [t0 [_ [_ Ec]]]]. subst c. reflexivity. }
+    destruct n as [|n1]; [apply sim_zero|].
+    eapply sim_fstep; [reflexivity|]. apply sim_cstep. rewrite Hstep, start_args_eq.
+    apply (args_sim p cp Hcod N args HA HT n1 ltac:(lia) true G cur st args' st1 e ce [CConsumer cont]
+             (AfDtor scrut x) (FinXtorK (new_id x) (MCutP (is_codata cp (compile_ty sty0)) c ce)) k [] [] Hargs Hfa' Hka (fun _ => Hpo) Hwa Hnca).
+    - eapply lifted_ok_grows; [exact Hl|]. eapply cmp_grows. apply (Hcmp CI64).
+    - exact HG.
+    - intros z Hz. apply Hbn. simpl. apply in_or_app. right. exact Hz.
+    - eapply erel_weaken; [exact He | | lia]. apply Sof_incl. intros bb Hx. apply fvs_cut. right.
+      apply fvt_xtor. apply fva_app. left. exact Hx.
+    - intros j Hj new new' Hnew Hkinds.
+      destruct j as [|j1]; [apply sim_zero|].
+      eapply sim_fstep; [simpl; rewrite rev_append_nil_twice; reflexivity|].
+      unfold cargs_res. apply sim_cstep.
+      destruct (KS_arg p cp _ _ _ _ ce (MArgs (rev_append new' []) [] ce (FinXtorK (new_id x) (MCutP (is_codata cp (compile_ty sty0)) c ce))) Hsh
+                  (KS_mono p cp _ (S j1) _ _ _ _ HKS ltac:(lia))) as [kv [Hreach Hkk]].
+      eapply sim_rreach; [|exact Hreach].
+      apply sim_cstep. rewrite cstep_app_margs. unfold cargs_res. simpl finish_args.
+      change (rev_append (BK kv :: rev_append new' []) []) with (rev_append (rev_append new' []) [BK kv]).
+      rewrite rev_append_twice_app.
+      apply sim_cstep. simpl cstep. rewrite Hcutd.
+      (* the scrutinee: the thunk of the term, forced by the destructor frame *)
+      assert (Hdf : Forall dfield new).
+      { clear -Hkinds. induction Hkinds as [|b y r r' [Hb _] Hr IH]; constructor; [exact Hb | exact IH]. }
+      assert (Hth : sim p cp (S j1) (FRet (FkDtor x new k) (FvThunk scrut e))
+                        (interact_val pv (KDtor (new_id x) (new' ++ [BK kv])))).
+      { apply (Co_use p cp (S n1) _ pv HCo j1 ltac:(lia)).
+        - eapply brels_mono; [exact Hnew | lia].
+        - exact Hdf.
+        - eapply Kk_mono; [exact Hkk | lia]. }
+      intros out o Hr Fo. apply (Hth out o); [|exact Fo].
+      rewrite (frun_next p j1 _ _ out (eq_refl : fstep p (FRet (FkDtor x new k) (FvThunk scrut e)) = FNext (FEval scrut e (FkDtor x new k)))).
+      exact Hr.
+  Qed.
+
   (* ---------- assembly: every term, every fuel bound ---------- *)
-  Theorem fl_all : forall N t, flw p cp N t /\ flc p cp N t.
+  Theorem fl_all : forall N t, flw p cp N t /\ flc p cp N t /\ flt p cp N t.
   Proof.
     induction N as [N IHN] using lt_wf_ind.
     assert (IHw : forall N', (N' < N)%nat -> forall t, flw p cp N' t).
     { intros N' HN t. apply (IHN N' HN t). }
+    (* terms compiled by the default method: flc and flt from flw *)
+    assert (Hdef : forall t (W : string -> cterm -> M cstmt),
+              (forall cur cont, wc (codata_of p) cur false t cont = W cur cont) ->
+              (forall cur ty, cmp (codata_of p) cur false t ty = default_compile (W cur) ty) ->
+              (forall y ty0 chi, t <> FVar y ty0 chi) ->
+              flw p cp N t -> flw p cp N t /\ flc p cp N t /\ flt p cp N t).
+    { intros t W HW HC Hnv H. split; [exact H|]. split.
+      - eapply flc_default; eauto.
+      - eapply flt_default; eauto. }
+    assert (Hnotflt : forall t, (kd p t = true -> tkind p t = true -> False) -> flt p cp N t).
+    { intros t Hno n Hn G cur ty st c st' e ce Hc Hf Hkd Hk1. exfalso. exact (Hno Hkd Hk1). }
     induction t using fterm_ind'.
     - apply fl_var; assumption.
-    - apply fl_lit; assumption.
-    - apply fl_op; tauto.
-    - apply fl_ifc; try tauto. destruct b as [b'|]; [simpl in H; tauto | exact I].
-    - apply fl_print; tauto.
-    - apply fl_let; tauto.
-    - apply fl_call; try assumption. eapply Forall_impl; [|exact H]. intros a [_ Ha]. exact Ha.
-    - apply fl_ctor; try assumption. eapply Forall_impl; [|exact H]. intros a [_ Ha]. exact Ha.
-    - split; intros n Hn; intros; discriminate.
-    - apply fl_case; try assumption; [tauto|]. eapply Forall_impl; [|exact H]. intros a [Ha _]. exact Ha.
-    - split; intros n Hn; intros; discriminate.
-    - apply fl_label; tauto.
-    - apply fl_goto; tauto.
-    - apply fl_exit; tauto.
-    - apply fl_paren; tauto.
+    - destruct (fl_lit p cp N n) as [Hw Hc]. split; [exact Hw|]. split; [exact Hc|].
+      apply Hnotflt. intros _ Hk. unfold tkind in Hk. simpl in Hk. discriminate.
+    - destruct IHt1 as [_ [C1 _]], IHt2 as [_ [C2 _]].
+      destruct (fl_op p cp N t1 o t2 C1 C2) as [Hw Hc]. split; [exact Hw|]. split; [exact Hc|].
+      apply Hnotflt. intros _ Hk. unfold tkind in Hk. simpl in Hk. discriminate.
+    - destruct IHt1 as [_ [C1 _]], IHt2 as [W2 _], IHt3 as [W3 _].
+      eapply (Hdef _ (fun cur => wc_ifc cur s (cmp (codata_of p) cur false t1 CI64)
+                           (match b with Some b' => Some (cmp (codata_of p) cur false b' CI64) | None => None end)
+                           (wc (codata_of p) cur false t2) (wc (codata_of p) cur false t3))).
+      + intros cur cont. apply wc_unfold.
+      + intros cur ty0. apply cmp_unfold.
+      + intros y ty0 chi E. discriminate E.
+      + apply fl_ifc; try assumption. destruct b as [b'|]; [simpl in H; tauto | exact I].
+    - destruct IHt1 as [_ [C1 _]], IHt2 as [W2 _].
+      eapply (Hdef _ (fun cur => wc_print nl (cmp (codata_of p) cur false t1 CI64) (wc (codata_of p) cur false t2))).
+      + intros cur cont. apply wc_unfold.
+      + intros cur ty0. apply cmp_unfold.
+      + intros y ty0 chi E. discriminate E.
+      + apply fl_print; assumption.
+    - destruct IHt1 as [W1 [_ T1]], IHt2 as [W2 _].
+      eapply (Hdef _ (fun cur => wc_let (codata_of p) v vty (cmp (codata_of p) cur false t1) (wc (codata_of p) cur false t1)
+                                (wc (codata_of p) cur false t2))).
+      + intros cur cont. apply wc_unfold.
+      + intros cur ty0. apply cmp_unfold.
+      + intros y ty0 chi E. discriminate E.
+      + apply fl_let; assumption.
+    - assert (HA : Forall (flc p cp N) args) by (eapply Forall_impl; [|exact H]; intros a [_ [Ha _]]; exact Ha).
+      assert (HT : Forall (flt p cp N) args) by (eapply Forall_impl; [|exact H]; intros a [_ [_ Ha]]; exact Ha).
+      eapply (Hdef _ (fun cur => wc_call f (subst_with (fun y => cmp (codata_of p) cur false y) args) ret)).
+      + intros cur cont. apply wc_unfold.
+      + intros cur ty0. apply cmp_unfold.
+      + intros y ty0 chi E. discriminate E.
+      + apply fl_call; assumption.
+    - assert (HA : Forall (flc p cp N) args) by (eapply Forall_impl; [|exact H]; intros a [_ [Ha _]]; exact Ha).
+      assert (HT : Forall (flt p cp N) args) by (eapply Forall_impl; [|exact H]; intros a [_ [_ Ha]]; exact Ha).
+      destruct (fl_ctor N x args ty HA HT) as [Hw Hc]. split; [exact Hw|]. split; [exact Hc|].
+      apply Hnotflt. intros Hkd Hk. simpl in Hkd. apply andb_prop in Hkd. destruct Hkd as [_ Hkty].
+      unfold tkind in Hk. simpl in Hk. rewrite Hk in Hkty. discriminate.
+    - destruct IHt as [_ [_ Ts]].
+      assert (HA : Forall (flc p cp N) args) by (eapply Forall_impl; [|exact H]; intros a [_ [Ha _]]; exact Ha).
+      assert (HT : Forall (flt p cp N) args) by (eapply Forall_impl; [|exact H]; intros a [_ [_ Ha]]; exact Ha).
+      eapply (Hdef _ (fun cur => wc_dtor (wc (codata_of p) cur false t) (fterm_type t) x (subst_with (fun y => cmp (codata_of p) cur false y) args))).
+      + intros cur cont. apply wc_unfold.
+      + intros cur ty0. apply cmp_unfold.
+      + intros y ty0 chi E. discriminate E.
+      + apply fl_dtor; assumption.
+    - destruct IHt as [Ws _].
+      eapply (Hdef _ (fun cur => wc_case cur (wc (codata_of p) cur false t) (fterm_type t) (List.length cls)
+                           (fun cont' => clauses_with (fun b => wc (codata_of p) cur false b) cont' cls))).
+      + intros cur cont. apply wc_unfold.
+      + intros cur ty0. apply cmp_unfold.
+      + intros y ty0 chi E. discriminate E.
+      + apply fl_case; try assumption. eapply Forall_impl; [|exact H]. intros a [Ha _]. exact Ha.
+    - apply fl_new. eapply Forall_impl; [|exact H]. intros a [Ha _]. exact Ha.
+    - destruct IHt as [W _]. destruct (fl_label p cp Hcod N l t ty W) as [Hw Hc]. split; [exact Hw|]. split; [exact Hc|].
+      apply Hnotflt. intros Hkd Hk. simpl in Hkd. apply andb_prop in Hkd. destruct Hkd as [_ Hkty].
+      unfold tkind in Hk. simpl in Hk. rewrite Hk in Hkty. discriminate.
+    - destruct IHt as [W _].
+      eapply (Hdef _ (fun cur _ => wc_goto false l (wc (codata_of p) cur false t) ty (fterm_type t))).
+      + intros cur cont. apply wc_unfold.
+      + intros cur ty0. apply cmp_unfold.
+      + intros y ty0 chi E. discriminate E.
+      + apply fl_goto; assumption.
+    - destruct IHt as [_ [C _]].
+      eapply (Hdef _ (fun cur _ => wc_exit (cmp (codata_of p) cur false t CI64) ty)).
+      + intros cur cont. apply wc_unfold.
+      + intros cur ty0. apply cmp_unfold.
+      + intros y ty0 chi E. discriminate E.
+      + apply fl_exit; assumption.
+    - destruct IHt as [W [C T]]. apply fl_paren; assumption.
   Qed.
 End FLh.
